@@ -418,6 +418,7 @@ func (x *Exec) handleLoopHeader(s *State, f *Frame, li *loopInfo, backEdge bool)
 		}
 	}
 	x.havocLoopModset(s, f, li)
+	s.iterEpoch++
 	env = x.specEnv(s, x.entryHeap, loopVars())
 	for _, c := range invs {
 		s.assume(env.evalBool(c.Expr))
